@@ -1,1 +1,482 @@
-fn main() {}
+//! C05 — the version graph resolves each version to root plus the diffs on its path.
+//!
+//! Code under observation: `/repo/src/version_graph.rs`, compiled into this monitor unchanged (`#[path]` module; the
+//! binary crate has no library), with quill's Tiny v2 / tinydiff readers, `apply_to` and the inner-class-name
+//! extension / contraction behind it.
+//!
+//! Judged, for every generated well-formed directory (one root `.tiny`, `parent#child.tinydiff` edges) and every
+//! listing order it is materialised in: `resolve` succeeds; every plain version is found under its name and every
+//! `client~server` version under either half, and the entry found is that version; `apply_diffs` of it equals the
+//! reference extension of the ground-truth state of the version (the generator gives every node a state and writes
+//! every edge as R-diff(parent state, child state), so every path yields that state); the answers do not differ
+//! between listing orders. For malformed directories: no root / two roots / a cycle must produce an error before any
+//! answer; a version nothing leads to, and a name that is no version, must not get an answer. A panic is a violation.
+//! Not judged: see NOTES.md (extension undefined for the state; `#`-less diff names and colliding split names are
+//! observed and counted only; the `Split` marker, `depth()`, full `a~b` names as lookup keys).
+use common::{par::*, report::{finish, Meta}, *};
+use maps::{cmp, Maps};
+
+// ---- what `/repo/src/version_graph.rs` imports from `crate::` (mirrors /repo/src/main.rs and
+// ---- /repo/src/download/versions_manifest.rs; nothing else of the binary crate is needed)
+pub struct Intermediary;
+pub struct Named;
+mod download { pub mod versions_manifest { #[allow(dead_code)] pub(crate) struct MinecraftVersion(pub(crate) String); } }
+#[allow(dead_code, unused_variables, unused_imports, deprecated, redundant_semicolons)]
+#[path = "/repo/src/version_graph.rs"]
+mod version_graph;
+
+mod fsdir;
+mod graphgen;
+mod refmodel;
+mod textfmt;
+
+use fsdir::{Bases, Order, TempDir};
+use graphgen::{Demand, FileSpec, VGraph};
+use refmodel as rm;
+use version_graph::VersionGraph;
+
+// ------------------------------------------------------------------------------------------------------------
+// one run of the real code on one directory
+
+#[derive(Clone, Debug, PartialEq)]
+enum Ans { Ok(Maps), Err(String), Panic(String, String), /** the sandboxed child did not report (see `run_dir_in_child`) */ Lost(&'static str) }
+impl Ans {
+    fn class(&self) -> String { match self { Ans::Ok(m) => format!("ok:{}", m.render()), Ans::Err(_) => "error".into(), Ans::Panic(s, _) => format!("panic:{s}"), Ans::Lost(r) => format!("lost:{r}") } }
+    fn show(&self) -> Value { match self { Ans::Ok(m) => json!({"ok": m.render()}), Ans::Err(e) => json!({"error": e}), Ans::Panic(s, m) => json!({"panic": m, "site": s}), Ans::Lost(r) => json!({"no_report": r}) } }
+}
+#[derive(Clone, Debug)]
+struct Found { split: String, version: String, depth: usize }
+#[derive(Clone, Debug)]
+struct Lookup { key: String, get: Result<Found, String>, ans: Option<Ans> }
+#[derive(Debug)]
+struct DirRun { resolve: Result<(), Ans>, lookups: Vec<Lookup>, invariant: Vec<(String, String)> }
+
+/// `resolve(dir)`, then for every key `get(key)` and `apply_diffs` of what was found. Every call under `guard`.
+fn run_dir(dir: &std::path::Path, keys: &[String]) -> DirRun {
+    let g = match guard(|| VersionGraph::resolve(dir)) {
+        Err(p) => return DirRun { resolve: Err(Ans::Panic(p.site(), p.message)), lookups: vec![], invariant: vec![] },
+        Ok(Err(e)) => return DirRun { resolve: Err(Ans::Err(format!("{e:#}"))), lookups: vec![], invariant: vec![] },
+        Ok(Ok(g)) => g,
+    };
+    let mut lookups = vec![];
+    let mut invariant = vec![];
+    for key in keys {
+        let r = guard(|| match g.get(key) {
+            Err(e) => (Err(format!("{e:#}")), None),
+            Ok((split, entry)) => (Ok(Found { split: format!("{split:?}"), version: entry.as_str().to_owned(), depth: entry.depth() }), Some(g.apply_diffs(entry))),
+        });
+        match r {
+            Err(p) => lookups.push(Lookup { key: key.clone(), get: Err("panic".into()), ans: Some(Ans::Panic(p.site(), p.message)) }),
+            Ok((get, ans)) => {
+                let ans = ans.map(|a| match a {
+                    Ok(m) => { invariant.extend(maps::invariant::problems(&m)); Ans::Ok(maps::from_quill(&m)) }
+                    Err(e) => Ans::Err(format!("{e:#}")),
+                });
+                lookups.push(Lookup { key: key.clone(), get, ans });
+            }
+        }
+    }
+    DirRun { resolve: Ok(()), lookups, invariant }
+}
+
+// ---- sandboxed variant for directories with a cycle: the loader walks every simple path from the root and relies on
+// ---- its loop check to stop; if that check ever fails the walk does not end and its queue grows without bound. Such a
+// ---- directory is therefore resolved in a child process (this binary, `--child <dir> <names..>`) under an address-space
+// ---- limit and a time limit, so that "does not come back" is an observation instead of a dead monitor.
+const CHILD_TIME_LIMIT_S: u64 = 25;
+const CHILD_ATTEMPTS: usize = 3;
+
+fn clip(s: &str) -> String { s.chars().take(300).collect() }
+
+fn child_main(args: &[String]) -> ! {
+    let keys: Vec<String> = args[1..].to_vec();
+    let run = run_dir(std::path::Path::new(&args[0]), &keys);
+    let ans = |a: &Ans| match a { Ans::Ok(_) => json!({"k": "ok"}), Ans::Err(e) => json!({"k": "err", "m": clip(e)}), Ans::Panic(s, m) => json!({"k": "panic", "s": s, "m": clip(m)}), Ans::Lost(_) => json!({"k": "err", "m": ""}) };
+    let out = json!({"resolve": run.resolve.as_ref().err().map(ans), "lookups": run.lookups.iter().map(|l| json!({"key": l.key,
+        "get": match &l.get { Ok(f) => json!({"split": f.split, "version": f.version, "depth": f.depth}), Err(e) => json!({"err": clip(e)}) }, "ans": l.ans.as_ref().map(ans)})).collect::<Vec<_>>()});
+    println!("{out}");
+    std::process::exit(0)
+}
+
+fn run_dir_in_child(dir: &std::path::Path, keys: &[String]) -> DirRun {
+    let lost = |why: &'static str| DirRun { resolve: Err(Ans::Lost(why)), lookups: vec![], invariant: vec![] };
+    let Ok(exe) = std::env::current_exe() else { return run_dir(dir, keys) };
+    let mut last = "";
+    for _ in 0..CHILD_ATTEMPTS {
+        let mut cmd = std::process::Command::new("sh");
+        cmd.arg("-c").arg("ulimit -v 2097152; exec \"$0\" --child \"$@\"").arg(&exe).arg(dir).args(keys).stdin(std::process::Stdio::null()).stdout(std::process::Stdio::piped()).stderr(std::process::Stdio::null());
+        let Ok(mut child) = cmd.spawn() else { last = "could not be started"; continue };
+        let t0 = std::time::Instant::now();
+        let status = loop {
+            match child.try_wait() {
+                Ok(Some(st)) => break Some(st),
+                Ok(None) if t0.elapsed().as_secs() >= CHILD_TIME_LIMIT_S => { let _ = child.kill(); let _ = child.wait(); break None }
+                Ok(None) => std::thread::sleep(std::time::Duration::from_millis(3)),
+                Err(_) => break None,
+            }
+        };
+        let Some(status) = status else { last = "killed after the time limit"; continue };
+        let mut text = String::new();
+        if let Some(mut o) = child.stdout.take() { use std::io::Read; let _ = o.read_to_string(&mut text); }
+        let Ok(v) = serde_json_from(&text) else { last = if status.success() { "gave no readable report" } else { "died without a report (signal, abort or allocation failure)" }; continue };
+        let ans = |a: &Value| match a["k"].as_str() { Some("ok") => Ans::Ok(Maps::default()), Some("panic") => Ans::Panic(a["s"].as_str().unwrap_or("?").into(), a["m"].as_str().unwrap_or("").into()), _ => Ans::Err(a["m"].as_str().unwrap_or("").into()) };
+        let resolve = if v["resolve"].is_null() { Ok(()) } else { Err(ans(&v["resolve"])) };
+        let lookups = v["lookups"].as_array().cloned().unwrap_or_default().iter().map(|l| Lookup { key: l["key"].as_str().unwrap_or("").into(),
+            get: if l["get"]["err"].is_null() { Ok(Found { split: l["get"]["split"].as_str().unwrap_or("").into(), version: l["get"]["version"].as_str().unwrap_or("").into(), depth: l["get"]["depth"].as_u64().unwrap_or(0) as usize }) } else { Err(l["get"]["err"].as_str().unwrap_or("").into()) },
+            ans: if l["ans"].is_null() { None } else { Some(ans(&l["ans"])) } }).collect();
+        return DirRun { resolve, lookups, invariant: vec![] };
+    }
+    lost(match last { "killed after the time limit" => "killed after the time limit in every attempt", "could not be started" => "could not be started", "gave no readable report" => "gave no readable report", _ => "died without a report (signal, abort or allocation failure)" })
+}
+fn serde_json_from(text: &str) -> Result<Value, ()> { let t = text.trim(); if t.is_empty() { return Err(()); } serde_json::from_str(t).map_err(|_| ()) }
+
+fn files_json(files: &[FileSpec]) -> Value { Value::Array(files.iter().map(|f| json!({"name": f.name, "content": f.content})).collect()) }
+
+/// One materialised copy of a directory.
+struct Copy { place: &'static str, order: &'static str, created: Vec<String>, listing: Vec<String>, run: DirRun }
+
+fn make_copy(bases: &Bases, tag: &str, files: &[FileSpec], place: &'static str, order: Order, rng: &mut Rng, keys: &[String], sandboxed: bool) -> Copy {
+    let want = fsdir::wanted_listing(files, order, rng);
+    // tmpfs lists in reverse creation order; on ext4 the creation order does not matter
+    let creation: Vec<usize> = want.iter().rev().copied().collect();
+    let base = if place == "tmpfs" { &bases.shm } else { &bases.ext };
+    let harness = |what: &str, e: std::io::Error| -> ! { eprintln!("HARNESS-ERROR C05 cannot {what} under {base:?}: {e}"); bases.remove(); std::process::exit(3) };
+    let dir = match TempDir::create(base.join(tag)) { Ok(d) => d, Err(e) => harness("create a directory", e) };
+    if let Err(e) = fsdir::materialise(dir.path(), files, &creation) { drop(dir); harness("write the files", e); }
+    let listing = match fsdir::listing(dir.path()) { Ok(l) => l, Err(e) => { drop(dir); harness("list the directory", e) } };
+    let run = if sandboxed { run_dir_in_child(dir.path(), keys) } else { run_dir(dir.path(), keys) };
+    Copy { place, order: order.name(), created: creation.iter().map(|&i| files[i].name.clone()).collect(), listing, run }
+}
+
+fn record_listing(rep: &mut Report, files: &[FileSpec], c: &Copy) {
+    let (root, child_first) = fsdir::listing_facts(files, &c.listing);
+    rep.count(&format!("listing.{}.root_{root}", c.place));
+    if child_first { rep.count(&format!("listing.{}.some_diff_before_the_diff_leading_to_its_parent", c.place)); }
+    rep.seen("listing.orders_requested", &format!("{}:{}", c.place, c.order));
+    if c.place == "tmpfs" {
+        let want: Vec<&String> = c.created.iter().rev().collect();
+        rep.count(if want.iter().copied().eq(c.listing.iter()) { "listing.tmpfs.as_requested" } else { "listing.tmpfs.not_as_requested" });
+    }
+}
+
+// ------------------------------------------------------------------------------------------------------------
+// comparison functions
+
+/// expectation vs. observation of one answer on a well-formed directory
+fn judge_answer(expected: &Maps, observed: &Ans, variant: &str) -> Vec<(String, String)> {
+    match observed {
+        Ans::Ok(o) => cmp::kinds(&cmp::diff_maps(expected, o)).into_iter().map(|(k, w)| (format!("C05 answer differs from root + diffs on the path + extension{variant}: {k}"), w)).collect(),
+        Ans::Err(e) => vec![(format!("C05 answer: a version of a well-formed directory is refused{variant}"), e.clone())],
+        Ans::Panic(site, msg) => vec![(format!("C05 panic {site}"), msg.clone())],
+        Ans::Lost(_) => vec![],
+    }
+}
+fn half_name(n_keys: usize, i: usize) -> &'static str { if n_keys == 1 { "plain version under its name" } else if i == 0 { "client~server version under its client half" } else { "client~server version under its server half" } }
+
+// ------------------------------------------------------------------------------------------------------------
+// workload 1: well-formed directories
+
+fn graph_case(rng: &mut Rng, rep: &mut Report, case: u64, bases: &Bases, copies: usize) {
+    let g = graphgen::gen_graph(rng);
+    let files = g.files(rng);
+    rep.eval();
+    // ---- expectations
+    let expected: Vec<Result<Maps, rm::ExtErr>> = g.nodes.iter().map(|n| rm::ref_extend(&n.state)).collect();
+    let open_unnamed: Vec<bool> = g.nodes.iter().map(|n| rm::has_unnamed_nested_with_broken_outer(&n.state)).collect();
+    let keys: Vec<(usize, usize, String)> = g.nodes.iter().enumerate().flat_map(|(v, n)| n.keys.iter().enumerate().map(move |(i, k)| (v, i, k.clone()))).collect();
+    let unknown = graphgen::unknown_names(&g, rng);
+    let full_split: Vec<String> = g.nodes.iter().filter(|n| n.keys.len() == 2).map(|n| n.name.clone()).collect();
+    let mut all_keys: Vec<String> = keys.iter().map(|k| k.2.clone()).collect();
+    let n_real = all_keys.len();
+    all_keys.extend(unknown.iter().map(|u| u.1.clone()));
+    all_keys.extend(full_split.iter().cloned());
+    let variant = if g.root_extended { " (root file written in extended form)" } else { "" };
+
+    // ---- coverage of the input
+    rep.count(&format!("graph.shape.{}", g.shape));
+    rep.count(&format!("graph.nodes.{:02}", g.nodes.len()));
+    rep.max("max.graph.depth", g.nodes.iter().map(|n| n.depth).max().unwrap_or(0) as u64);
+    let joins = g.joins();
+    rep.count(&format!("graph.nodes_with_several_parents.{joins}"));
+    rep.add("graph.extra_edges", g.edges.iter().filter(|e| e.extra).count() as u64);
+    rep.add("versions.plain", g.nodes.iter().filter(|n| n.keys.len() == 1).count() as u64);
+    rep.add("versions.split", g.nodes.iter().filter(|n| n.keys.len() == 2).count() as u64);
+    rep.count(if g.nodes[0].keys.len() == 2 { "root.name.split" } else { "root.name.plain" });
+    rep.count(if g.root_extended { "root.file.extended_form" } else { "root.file.contracted_form" });
+    if files.iter().any(|f| f.kind == graphgen::FileKind::Noise) { rep.count("directory.with_files_to_ignore"); }
+    for e in &g.edges { for op in &e.ops { rep.count(&format!("edit.{op}")); } if e.diff.classes.is_empty() { rep.count("diff.empty"); } rm::diff_census(&e.diff, |k| rep.count(k)); }
+    let shortest = g.shortest();
+    for (v, n) in g.nodes.iter().enumerate() {
+        rep.count(&format!("answer.shortest_path_edges.{}", shortest[v].min(8)));
+        if shortest[v] < n.depth { rep.count("graph.version_with_a_shortcut_path"); }
+        for c in n.state.classes.keys() { rep.count(&format!("state.class_nesting_depth.{}", rm::nest_depth(c).min(3))); }
+    }
+
+    // ---- run the real code on every copy
+    let orders: Vec<(&'static str, Order)> = [("tmpfs", Order::RootFirst), ("tmpfs", Order::RootLast), ("tmpfs", Order::Random), ("ext4", Order::Sorted), ("tmpfs", Order::Random), ("tmpfs", Order::Sorted)].into_iter().take(copies).collect();
+    let runs: Vec<Copy> = orders.iter().enumerate().map(|(i, (place, order))| make_copy(bases, &format!("g{case}-{i}"), &files, place, *order, rng, &all_keys, false)).collect();
+    let mut distinct: Vec<&Vec<String>> = vec![];
+    for c in &runs { record_listing(rep, &files, c); if !distinct.contains(&&c.listing) { distinct.push(&c.listing); } }
+    rep.count(&format!("listing.distinct_orders_per_directory.{}", distinct.len()));
+    rep.add("listing.distinct_orders_total", distinct.len() as u64);
+    rep.add("directories.materialised", runs.len() as u64);
+
+    let detail = |c: &Copy, extra: Value| json!({"files": files_json(&files), "root_file_form": if g.root_extended { "extended" } else { "contracted" }, "placed_on": c.place, "created_in_order": c.created, "read_dir_lists": c.listing,
+        "versions": g.nodes.iter().map(|n| json!({"name": n.name, "parent": n.parent.map(|p| g.nodes[p].name.clone())})).collect::<Vec<_>>(), "extra_edges": g.edges.iter().filter(|e| e.extra).map(|e| format!("{} -> {}", g.nodes[e.from].name, g.nodes[e.to].name)).collect::<Vec<_>>(), "what": extra});
+
+    let mut judged_all = true;
+    for c in &runs {
+        if let Err(a) = &c.run.resolve {
+            match a { Ans::Panic(site, msg) => rep.violation(format!("C05 panic {site}"), detail(c, json!({"call": "resolve", "panic": msg}))),
+                _ => rep.violation(format!("C05 resolve refuses a well-formed directory{variant}"), detail(c, json!({"call": "resolve", "observed": a.show()}))) }
+            judged_all = false;
+            continue;
+        }
+        rep.count("resolve.ok");
+        for (kind, inst) in &c.run.invariant { rep.violation(format!("C05 invariant after apply_diffs: {kind}"), detail(c, json!({"where": inst}))); }
+        for (qi, (v, ki, key)) in keys.iter().enumerate() {
+            let l = &c.run.lookups[qi];
+            let how = half_name(g.nodes[*v].keys.len(), *ki);
+            rep.count(&format!("lookup.{}", how.replace(' ', "_")));
+            match &l.get {
+                Err(e) => { if !matches!(l.ans, Some(Ans::Panic(..))) { rep.violation(format!("C05 lookup: {how} is not found"), detail(c, json!({"name": key, "version": g.nodes[*v].name, "error": e}))); judged_all = false; continue; } }
+                Ok(f) => {
+                    rep.seen("observed.split_marker", &format!("{how}: {}", f.split));
+                    if f.version != g.nodes[*v].name { rep.violation(format!("C05 lookup: {how} leads to another version"), detail(c, json!({"name": key, "expected_version": g.nodes[*v].name, "observed_version": f.version}))); judged_all = false; continue; }
+                    rep.count(if f.depth == shortest[*v] { "observed.depth_equals_shortest_path_length" } else { "observed.depth_differs_from_shortest_path_length" });
+                }
+            }
+            let Some(ans) = &l.ans else { continue };
+            match &expected[*v] {
+                Ok(e) => {
+                    if open_unnamed[*v] && matches!(ans, Ans::Err(_)) { rep.count("open.unnamed_nested_class_with_broken_outer_chain.refused"); judged_all = false; continue; }
+                    rep.count("answer.compared");
+                    if e != &g.nodes[*v].state { rep.count("answer.compared.extension_rewrote_a_name"); }
+                    if g.nodes[*v].state != g.nodes[0].state { rep.count("answer.compared.state_differs_from_root"); }
+                    for (sig, w) in judge_answer(e, ans, variant) {
+                        rep.violation(sig, detail(c, json!({"version": g.nodes[*v].name, "looked_up_as": key, "where": w, "expected": e.render(), "observed": ans.show()})));
+                    }
+                }
+                Err(x) => { judged_all = false; rep.count(&format!("open.extension_undefined.{x:?}.{}", if matches!(ans, Ans::Ok(_)) { "answered" } else { "refused" }));
+                    if let Ans::Panic(site, msg) = ans { rep.violation(format!("C05 panic {site}"), detail(c, json!({"version": g.nodes[*v].name, "panic": msg}))); } }
+            }
+        }
+        // names that are no versions
+        for (ui, (class, name)) in unknown.iter().enumerate() {
+            let l = &c.run.lookups[n_real + ui];
+            rep.count(&format!("unknown_name.{class}"));
+            if let Some(Ans::Panic(site, msg)) = &l.ans { if l.get.is_err() { rep.violation(format!("C05 panic {site}"), detail(c, json!({"call": "get", "name": name, "panic": msg}))); continue; } }
+            if let Ok(f) = &l.get { rep.violation("C05 lookup: a name that is no version of the directory is resolved", detail(c, json!({"name": name, "kind_of_name": class, "resolved_to": f.version}))); }
+        }
+        for (fi, _) in full_split.iter().enumerate() {
+            let l = &c.run.lookups[n_real + unknown.len() + fi];
+            rep.count(if l.get.is_ok() { "observed.full_client~server_name_as_lookup_key.found" } else { "observed.full_client~server_name_as_lookup_key.unknown" });
+        }
+    }
+    // ---- order independence: the same lookup must give the same answer in every copy
+    if runs.iter().all(|c| c.run.resolve.is_ok()) {
+        for (qi, (v, _, key)) in keys.iter().enumerate() {
+            let classes: Vec<String> = runs.iter().map(|c| { let l = &c.run.lookups[qi]; format!("{:?}|{}", l.get.as_ref().map(|f| f.version.clone()).map_err(|_| "unknown"), l.ans.as_ref().map(|a| a.class()).unwrap_or_default()) }).collect();
+            if classes.iter().any(|x| x != &classes[0]) {
+                let other = classes.iter().position(|x| x != &classes[0]).unwrap();
+                rep.violation("C05 the answer for a version depends on the directory listing order", json!({"files": files_json(&files), "version": g.nodes[*v].name, "looked_up_as": key,
+                    "listing_a": runs[0].listing, "answer_a": runs[0].run.lookups[qi].ans.as_ref().map(|a| a.show()), "listing_b": runs[other].listing, "answer_b": runs[other].run.lookups[qi].ans.as_ref().map(|a| a.show())}));
+            }
+        }
+        rep.count("order_independence.directories_compared");
+    }
+    let changed = g.nodes.iter().any(|n| n.state != g.nodes[0].state);
+    if judged_all && g.nodes.len() >= 2 && changed {
+        rep.count("nontrivial.graphs");
+        let mut fp = g.shape_fingerprint() ^ g.nodes[0].state.shape_fingerprint().rotate_left(7);
+        for e in &g.edges { fp = fp.rotate_left(5) ^ e.diff.shape_fingerprint(); }
+        rep.nontrivial(fp);
+        if rep.want_sample() && g.nodes.len() >= 3 && g.nodes.len() <= 4 && files.iter().map(|f| f.content.len()).sum::<usize>() < 1500 {
+            rep.sample(|| json!({"files": files_json(&files), "read_dir_orders_observed": runs.iter().map(|c| json!({"on": c.place, "lists": c.listing})).collect::<Vec<_>>(),
+                "versions": g.nodes.iter().enumerate().map(|(v, n)| json!({"version": n.name, "found_under": n.keys, "expected_and_observed": expected[v].as_ref().map(|e| e.render()).unwrap_or_default()})).collect::<Vec<_>>()}));
+        }
+    }
+}
+
+// ------------------------------------------------------------------------------------------------------------
+// workload 2: malformed directories (and two observed-only shapes)
+
+const OBSERVED_ONLY: &[&str] = &["observe.diff_name_without_hash", "observe.split_version_shares_a_half_with_a_plain_version", "observe.two_split_versions_share_a_half"];
+
+fn observed_only(g: &VGraph, kind: &'static str, rng: &mut Rng) -> Vec<FileSpec> {
+    let mut files = g.files(rng);
+    let bad = |name: String| FileSpec { name, content: "tiny\t2\t0\n".into(), kind: graphgen::FileKind::Bad };
+    let k0 = g.nodes[0].keys[0].clone();
+    match kind {
+        "observe.diff_name_without_hash" => files.push(bad(format!("{}.tinydiff", rng.pick(&["1.0-1.1", "orphan", "a~b"])))),
+        "observe.split_version_shares_a_half_with_a_plain_version" => files.push(bad(format!("{}#{}~server-zz.tinydiff", g.nodes[0].name, g.nodes.last().unwrap().keys[0]))),
+        _ => { files.push(bad(format!("{}#shared-half~server-y1.tinydiff", g.nodes[0].name))); files.push(bad(format!("{}#shared-half~server-y2.tinydiff", g.nodes[0].name))); }
+    }
+    let _ = k0;
+    files
+}
+
+fn malformed_case(rng: &mut Rng, rep: &mut Report, case: u64, bases: &Bases) {
+    let n_kinds = graphgen::MALFORMED_KINDS.len() + OBSERVED_ONLY.len();
+    let which = (case as usize) % n_kinds;
+    let g = graphgen::gen_graph(rng);
+    let known: Vec<String> = g.nodes.iter().flat_map(|n| n.keys.iter().cloned()).collect();
+    rep.eval();
+    if which >= graphgen::MALFORMED_KINDS.len() {
+        let kind = OBSERVED_ONLY[which - graphgen::MALFORMED_KINDS.len()];
+        let files = observed_only(&g, kind, rng);
+        let c = make_copy(bases, &format!("o{case}"), &files, "tmpfs", Order::Random, rng, &known, false);
+        match &c.run.resolve {
+            Err(Ans::Panic(site, msg)) => rep.violation(format!("C05 panic {site}"), json!({"files": files_json(&files), "read_dir_lists": c.listing, "call": "resolve", "panic": msg})),
+            Err(_) => rep.count(&format!("{kind}.rejected_by_resolve")),
+            Ok(()) => { rep.count(&format!("{kind}.accepted_by_resolve"));
+                for l in &c.run.lookups { if let Some(Ans::Panic(site, msg)) = &l.ans { rep.violation(format!("C05 panic {site}"), json!({"files": files_json(&files), "read_dir_lists": c.listing, "name": l.key, "panic": msg})); } } }
+        }
+        return;
+    }
+    let kind = graphgen::MALFORMED_KINDS[which];
+    let Some(m) = graphgen::malform(&g, kind, rng) else { rep.count(&format!("malformed.{kind}.skipped_graph_too_small")); return };
+    let class = kind.split('.').next().unwrap_or(kind);
+    let (demand_keys, directory) = match &m.demand { Demand::Directory => (known.clone(), true), Demand::Versions(k) => (k.clone(), false) };
+    // two listing orders that are the reverse of each other (e.g. either root file of a two-root directory comes first once)
+    let want = fsdir::wanted_listing(&m.files, Order::Random, rng);
+    for (i, rev) in [false, true].into_iter().enumerate() {
+        // `make_copy` lists the reverse of the creation order, so hand it the files in a fixed permutation
+        let perm: Vec<FileSpec> = if rev { want.iter().rev().map(|&j| m.files[j].clone()).collect() } else { want.iter().map(|&j| m.files[j].clone()).collect() };
+        let c = make_copy(bases, &format!("m{case}-{i}"), &perm, "tmpfs", Order::RootFirst, rng, &demand_keys, class == "cycle");
+        let (root_pos, _) = fsdir::listing_facts(&perm, &c.listing);
+        rep.count(&format!("malformed.listing.root_{root_pos}"));
+        rep.add("directories.materialised", 1);
+        let detail = |extra: Value| json!({"kind": kind, "why_malformed": m.note, "files": files_json(&perm), "created_in_order": c.created, "read_dir_lists": c.listing, "what": extra});
+        match &c.run.resolve {
+            Err(Ans::Panic(site, msg)) => rep.violation(format!("C05 panic {site}"), detail(json!({"call": "resolve", "panic": msg}))),
+            Err(Ans::Lost(why)) if why.starts_with("killed") || why.starts_with("died") => rep.violation(format!("C05 malformed directory ({}): the loader does not come back with an error (sandboxed process {why})", class.replace('_', " ")),
+                detail(json!({"call": "resolve + get + apply_diffs in a child process", "limits": format!("{CHILD_TIME_LIMIT_S} s, 2 GiB address space, {CHILD_ATTEMPTS} attempts")}))),
+            Err(Ans::Lost(why)) => { rep.count("harness.child_process_unusable"); rep.note(format!("sandboxed child process {why}")); }
+            Err(_) => rep.count(&format!("malformed.{kind}.rejected_by_resolve")),
+            Ok(()) => {
+                let mut answered = vec![];
+                for l in &c.run.lookups {
+                    match (&l.get, &l.ans) {
+                        (_, Some(Ans::Panic(site, msg))) => rep.violation(format!("C05 panic {site}"), detail(json!({"name": l.key, "panic": msg}))),
+                        (Ok(f), Some(Ans::Ok(_))) => answered.push(json!({"name": l.key, "resolved_to": f.version})),
+                        (Err(_), _) => rep.count(&format!("malformed.{kind}.name_rejected_by_get")),
+                        _ => rep.count(&format!("malformed.{kind}.version_rejected_by_apply_diffs")),
+                    }
+                }
+                if directory && (!answered.is_empty() || c.run.lookups.is_empty()) {
+                    rep.violation(format!("C05 malformed directory ({}) is resolved without an error", class.replace('_', " ")), detail(json!({"answers_given": answered})));
+                } else if !directory && !answered.is_empty() {
+                    rep.violation("C05 malformed directory (a version nothing leads to) gets an answer", detail(json!({"answers_given": answered})));
+                } else { rep.count(&format!("malformed.{kind}.rejected_at_query")); }
+            }
+        }
+    }
+    rep.count(&format!("malformed.{kind}.exercised"));
+    rep.nontrivial(common::rng::fnv_str(kind) ^ g.shape_fingerprint());
+}
+
+// ------------------------------------------------------------------------------------------------------------
+// self-checks of the harness
+
+fn canaries(seed: u64, bases: &Bases) -> String {
+    let bad = |s: &str| -> ! { eprintln!("HARNESS-ERROR C05 self-check failed: {s}"); bases.remove(); std::process::exit(3) };
+    if let Err(e) = maps::self_test(5, 20) { bad(&e); }
+    for (n, e) in [("A$B", Some(("A", "B"))), ("a/A$B$C", Some(("a/A$B", "C"))), ("A$", None), ("$A", None), ("a/$B", None), ("A$b/C", None), ("A$$B", Some(("A$", "B"))), ("A", None)] { if rm::split(n) != e { bad(&format!("split({n})")); } }
+    // documented example of the repository: A -> a, A$B -> b, A$B$C -> c  gives  a, a$b, a$b$c
+    let s = |x: &str| Some(x.to_string());
+    let mut m = Maps::new(&["official", "named"]);
+    for (k, v) in [("A", "a"), ("A$B", "b"), ("A$B$C", "c"), ("p/T", "q/t")] { m.classes.insert(k.into(), maps::Class { names: vec![s(k), s(v)], ..Default::default() }); }
+    let e = rm::ref_extend(&m).unwrap_or_else(|_| bad("reference extension refuses the documented example"));
+    if e.classes.values().map(|c| c.names[1].clone().unwrap()).collect::<Vec<_>>() != ["a", "a$b", "a$b$c", "q/t"] { bad("reference extension disagrees with the documented example"); }
+    if rm::ref_contract(&e) != m { bad("reference: contract(extend(M)) != M on the documented example"); }
+    let mut orphan = m.clone(); orphan.classes.remove("A$B");
+    if rm::ref_extend(&orphan) != Err(rm::ExtErr::OuterMissing) { bad("reference extends although an outer class is missing"); }
+    // R-diff / R-apply laws on generated states: parent -> child, and across branches when expressible
+    let mut rng = Rng::new(seed ^ 0xc05);
+    let (mut cross, mut edits) = (0, 0);
+    for _ in 0..150 {
+        let a = rm::gen_root(&mut rng);
+        if !rm::is_contracted_form(&a) { bad("generated root state is not in contracted form"); }
+        let (b, _) = rm::edit(&mut rng, &a);
+        let (c, _) = rm::edit(&mut rng, &a);
+        let (b2, _) = rm::edit(&mut rng, &b);
+        for (x, y, must) in [(&a, &b, true), (&a, &c, true), (&b, &b2, true), (&b2, &c, false), (&c, &b, false), (&a, &a, true)] {
+            if !rm::is_contracted_form(y) || !y.check().is_empty() { bad("edited state left the domain"); }
+            for deep in [false, true] {
+                match rm::ref_diff(x, y, deep) {
+                    Err(e) => if must { bad(&format!("R-diff refuses a parent/child pair: {e}")) },
+                    Ok(mut d) => {
+                        if rm::ref_apply(&d, x).as_ref() != Ok(y) { bad(&format!("R-apply(R-diff(A, B), A) != B\n--- A\n{}--- B\n{}--- diff\n{}", x.render(), y.render(), d.render())); }
+                        rm::add_noise(&mut rng, &mut d, x, y);
+                        if rm::ref_apply(&d, x).as_ref() != Ok(y) { bad("R-apply with no-op nodes != B"); }
+                        if x != y && d.classes.is_empty() { bad("R-diff of different states is empty"); }
+                        if must { edits += 1 } else { cross += 1 }
+                    }
+                }
+            }
+        }
+    }
+    if cross < 20 || edits < 500 { bad("law check starved"); }
+    // deliberately wrong observations must be flagged by the comparison function
+    let wrong = |what: &str, obs: Ans| { if judge_answer(&e, &obs, "").is_empty() { bad(&format!("comparison misses: {what}")); } };
+    wrong("answer without extension", Ans::Ok(m.clone()));
+    let mut skipped = e.clone(); skipped.classes.get_mut("A").unwrap().comment = Some("left over".into()); wrong("a diff on the path not applied (comment)", Ans::Ok(skipped));
+    let mut lost = e.clone(); lost.classes.remove("p/T"); wrong("class missing", Ans::Ok(lost));
+    wrong("refusal", Ans::Err("x".into()));
+    if !judge_answer(&e, &Ans::Ok(e.clone()), "").is_empty() { bad("comparison flags an equal answer"); }
+    // the listing-order lever
+    if let Err(e) = bases.create() { bad(&format!("cannot create {:?} / {:?}: {e}", bases.shm, bases.ext)); }
+    let (ok, seen) = fsdir::probe_tmpfs(&bases.shm);
+    if ok { seen } else { format!("NOT reverse creation order: {seen}") }
+}
+
+fn main() {
+    let args: Vec<String> = std::env::args().collect();
+    if args.get(1).map(|s| s.as_str()) == Some("--child") && args.len() >= 3 { child_main(&args[2..]); }
+    let mut ctx = Ctx::from_args("C05", 40, 480);
+    let replay = load_replay(&mut ctx);
+    let bases = Bases::new(&ctx.out_dir);
+    let probe = canaries(ctx.seed, &bases);
+    let mut rep = Report::new();
+    rep.max_samples = 3;
+    let copies = ctx.tier.pick(4, 6);
+    let n = ctx.tier.pick(2_500, 40_000);
+    run_cases(&ctx, &replay, &mut rep, "graphs", n, |rng, rep, i| graph_case(rng, rep, i, &bases, copies));
+    let n = ctx.tier.pick(1_600, 24_000);
+    run_cases(&ctx, &replay, &mut rep, "malformed", n, |rng, rep, i| malformed_case(rng, rep, i, &bases));
+    bases.remove();
+
+    let mut meta = Meta::new("exploration",
+        "rooted version graphs (single / chain / star / bushy / random tree of 1-14 versions, depth <= 8, up to 4 extra edges = diamonds and shortcuts, plain and client~server names) with a ground-truth mapping state per version \
+         (root from maps::gen in contracted form, children by random edit scripts: rename / add / remove / name at class, field, method, parameter level, comment add / edit / remove at every level); every edge file is the harness' own R-diff \
+         of the two states in the harness' own .tinydiff text, the root file the harness' own Tiny v2 text (contracted or extended form); each directory is materialised 4 (thorough: 6) times with chosen read_dir orders \
+         (tmpfs: root first, root last / children before parents, random, sorted; ext4: hash order) and resolved by the real VersionGraph; expectation = reference extension of the state; malformed directories are derived from such graphs. \
+         non-trivial = at least two versions, some state differs from the root state, every answer of every copy was compared; distinct = fingerprint of graph shape x root state shape x diff shapes (malformed: kind x graph shape)")
+        .assume("names contain no white space; comments contain no backslash, TAB or CR (the text form cannot carry them, see C03)")
+        .assume("states are in contracted form: no class name in `named` can be split at a `$`, nested classes carry a simple name; a root file in extended form is the reference extension of such a state")
+        .assume("all lookup names of a directory (plain names and both halves of client~server names) are pairwise distinct and contain no `#`")
+        .assume("not judged: versions whose state has no defined extension (outer class absent or unnamed); diff file names without `#`; colliding split names; the Split marker; depth(); a full client~server name as lookup key");
+    meta.extra.insert("tmpfs_read_dir_order_probed_at_start".into(), json!(probe));
+    if ctx.replay.is_none() {
+        let need = |meta: &mut Meta, rep: &Report, k: &str, min: u64| meta.oblige(format!("at least {min} x {k}"), rep.get(k) >= min);
+        meta.oblige("tmpfs lists in reverse creation order (the lever that forces listing orders)", probe == "reverse creation order");
+        for k in ["graph.shape.single", "graph.shape.chain", "graph.shape.star", "graph.shape.bushy", "graph.shape.random", "root.name.split", "root.name.plain", "root.file.extended_form", "root.file.contracted_form", "directory.with_files_to_ignore",
+            "lookup.plain_version_under_its_name", "lookup.client~server_version_under_its_client_half", "lookup.client~server_version_under_its_server_half", "graph.version_with_a_shortcut_path", "diff.empty",
+            "answer.compared.extension_rewrote_a_name", "answer.compared.state_differs_from_root", "state.class_nesting_depth.2", "order_independence.directories_compared",
+            "listing.tmpfs.root_first", "listing.tmpfs.root_last", "listing.tmpfs.root_middle", "listing.tmpfs.some_diff_before_the_diff_leading_to_its_parent", "listing.ext4.root_middle", "listing.tmpfs.as_requested",
+            "unknown_name.fresh", "unknown_name.empty", "unknown_name.prefix", "unknown_name.extended", "unknown_name.case", "unknown_name.with_extension", "unknown_name.hash_pair"] { need(&mut meta, &rep, k, 5); }
+        meta.oblige("no tmpfs listing differed from the requested one", rep.get("listing.tmpfs.not_as_requested") == 0);
+        meta.oblige("at least 20 graphs with a version that has several parents", (1..=4).map(|j| rep.get(&format!("graph.nodes_with_several_parents.{j}"))).sum::<u64>() >= 20);
+        meta.oblige("a graph of depth >= 7 and one with >= 12 versions", rep.get("max.graph.depth") >= 7 && (12..=14).any(|k| rep.get(&format!("graph.nodes.{k:02}")) > 0));
+        meta.oblige("answers over paths of 0, 1, 2, 3, 4, 5 and 6 diffs", (0..=6).all(|k| rep.get(&format!("answer.shortest_path_edges.{k}")) > 0));
+        meta.oblige("at least 3 distinct listing orders for some directory, and >= 2 for 100 of them", (3..=6).any(|k| rep.get(&format!("listing.distinct_orders_per_directory.{k}")) > 0) && (2..=6).map(|k| rep.get(&format!("listing.distinct_orders_per_directory.{k}"))).sum::<u64>() >= 100);
+        for level in ["class", "field", "method", "parameter"] { for a in ["add", "remove", "edit", "comment_add", "comment_remove", "comment_edit"] { need(&mut meta, &rep, &format!("diff.{level}.{a}"), 5); } }
+        for k in ["edit.class.rename.nested", "edit.class.add.nested", "edit.class.remove.with_nested", "edit.class.name_an_unnamed_one"] { need(&mut meta, &rep, k, 3); }
+        for k in graphgen::MALFORMED_KINDS { need(&mut meta, &rep, &format!("malformed.{k}.exercised"), 5); }
+        meta.oblige("two-root directories listed with either root file first", rep.get("malformed.listing.root_first") > 0 && rep.get("malformed.listing.root_last") > 0);
+        meta.oblige("at least 1000 answers compared", rep.get("answer.compared") >= 1000);
+        meta.oblige("the sandboxed child process (directories with a cycle) always reported", rep.get("harness.child_process_unusable") == 0);
+    }
+    std::process::exit(finish(&ctx, rep, meta));
+}
